@@ -228,7 +228,60 @@ def _template_case(k, rng, tier):
     return {"digest": C.digest("template", pk, csp), "nontrivial": True, "failures": failures, "counters": counters, "sets": {"template_parents": {pk}}, "sample": {"kind": "template independence", "parent": pk, "child": S.describe(csp)}}
 
 
+def _boolkey_case(k, rng):
+    """Pure operations on aggregators whose categories are booleans (a legitimate Categorize quantity): the
+    document turns the keys into strings, so the operand is observed through its objects as well."""
+    hg = env.hg()
+    inner = [lambda: hg.Count(), lambda: hg.Sum(lambda d: d["x"]), lambda: hg.Bin(2, 0.0, 2.0, lambda d: d["x"])][k % 3]
+    h = hg.Categorize(lambda d: d["b"], inner())
+    twin = hg.Categorize(lambda d: d["b"], inner())
+    recs = [{"b": rng.random() < 0.5, "x": rng.choice([0.25, 1.5, 3.0])} for _ in range(rng.randint(2, 8))]
+    for r in recs:
+        w = rng.choice([1.0, 0.5, 2.0])
+        h.fill(r, w)
+        twin.fill(r, w)
+    failures = []
+    counters = {"boolkey_cases": 1}
+    ops = {
+        "toJson": lambda: h.toJson(),
+        "toJsonString": lambda: h.toJsonString(),
+        "repr": lambda: repr(h),
+        "hash": lambda: hash(h),
+        "==": lambda: h == twin,
+        "copy": lambda: h.copy(),
+        "+": lambda: h + twin,
+        "*": lambda: h * 2.0,
+        "zero": lambda: h.zero(),
+        "toImmutable": lambda: h.toImmutable(),
+        "bin_entries": lambda: h.bin_entries(),
+        "bin_labels": lambda: h.bin_labels(),
+    }
+    names = list(ops)
+    rng.shuffle(names)
+    for nm in names:
+        before = (H.fingerprint(h), sorted((type(kk).__name__, str(kk), v.entries) for kk, v in h.bins.items()))
+        try:
+            ops[nm]()
+        except Exception as e:  # noqa: BLE001
+            counters["boolkey_op_raised:" + nm] = 1
+        after = (H.fingerprint(h), sorted((type(kk).__name__, str(kk), v.entries) for kk, v in h.bins.items()))
+        counters["boolkey_frame_checks"] = counters.get("boolkey_frame_checks", 0) + 1
+        if after != before:
+            failures.append(C.fail(None, "%s changed its operand (a Categorize with boolean categories): %s -> %s" % (nm, before[1], after[1]), op=nm, records=S.jsonable(recs)))
+            break
+        try:
+            if not (h == twin):
+                failures.append(C.fail(None, "after %s the aggregator no longer equals its identically filled twin" % nm, op=nm, records=S.jsonable(recs)))
+                break
+        except Exception as e:  # noqa: BLE001
+            failures.append(C.fail(None, "== raised %s after %s" % (type(e).__name__, nm), op=nm))
+            break
+    return {"digest": C.digest("boolkey", k, S.jsonable(recs)), "nontrivial": True, "failures": failures, "counters": counters, "sets": {}, "sample": {"kind": "pure operations on boolean-keyed Categorize", "records": S.jsonable(recs[:4])}}
+
+
 def run_case(i, rng, tier):
+    if i % 40 == 7:
+        return _boolkey_case(i // 40, rng)
     if i % 10 == 8:
         return _separate_case(i // 10, rng)
     if i % 10 == 9:
@@ -260,4 +313,6 @@ def conclusive(agg):
         out.append("separate-construction cases never ran")
     if not agg.counters.get("template_cases"):
         out.append("template cases never ran")
+    if not agg.counters.get("boolkey_frame_checks"):
+        out.append("boolean-key cases never ran")
     return out
